@@ -92,8 +92,10 @@ func main() {
 		total += genCrowd(out, rng, cnt(3, 40))
 		total += genBigQueue(out, rng, cnt(8, 60))
 		total += genQueueRing(out, rng, "battle", cnt(60, 1500))
-		total += genRingEdge(out, rng, "battle", cnt(25, 400), false)
+		total += genRingEdge(out, rng, "battle", cnt(25, 400), thorough) // thorough: one case with a limit above 65536 (16 minutes in the driver)
 		total += genRespawnStorm(out, rng, "battle", cnt(300, 10000))
+	case "ringbig": // the one thorough-tier case of genRingEdge with a limit above 65536, alone
+		total += genRingEdge(out, rng, "api", 1, true)
 	case "soak": // not part of any tier: 2.6 million cycles with a 1.5-million-entry queue (see DESIGN.md section 9)
 		total += genSoak(out, rng)
 	case "bigstep":
@@ -114,7 +116,7 @@ func main() {
 			total += genManyResets(out, rng, 200)
 			total += genExtremes(out, rng, 20000)
 			total += genRespawnStorm(out, rng, "api", 20000)
-			total += genRingEdge(out, rng, "api", 400, true)
+			total += genRingEdge(out, rng, "api", 400, false)
 			total += genCounts(out, rng, true)
 			total += genLifeCycleBig(out, rng, 10000)
 			total += genWild(out, rng, 5000)
